@@ -310,6 +310,26 @@ CHECKS["C13"] = dict(
          "was closed explicitly before; every channel's transport closed exactly once, active at most once and before inactive, inactive "
          "exactly once. Non-trivial = Shutdown ran while an accept-loop start or an accepted-but-not-yet-activated connection was held.",
     required=["overlap:accept-loop-not-started", "overlap:accepted-not-yet-active", "shutdown:first", "shutdown:middle", "shutdown:last",
-              "listener-closed-before-shutdown", "channels", "late-release", "inbound-handed"],
+              "listener-closed-before-shutdown", "channels", "late-release", "inbound-handed", "slow-listen"],
     assumptions=["user code closes only channels that were handed out (activated)", "the holder is observed through its effects (every channel closed), not its map"],
+)
+
+CHECKS["C15"] = dict(
+    test="TestC15", level="exploration",
+    quick=dict(shards=8, checks=6000, timeout=300),
+    thorough=dict(shards=16, checks=300000, timeout=3000, shrinktime="120s"),
+    rule="grammar-generated sequences of 1-5 HTTP/1.x requests (GET/HEAD/POST/PUT/DELETE/OPTIONS; origin- and absolute-form targets; "
+         "HTTP/1.0 and 1.1; repeated and mixed-case headers; Connection close/keep-alive/absent; no body, Content-Length bodies of "
+         "0,1,26,100,2047-2049,5000 bytes whose content looks like a request, chunked bodies) pipelined in one read, in 1-byte reads or "
+         "random fragments, then parked or ended by peer EOF, on sync and queued channels with the pipeline [ServerCodec, Handler]; per "
+         "request a generated handler program (reads none/half/all of the body; Header().Add; WriteHeader with 200/201/404/500/204/304 "
+         "or implicit; 0-3 writes of sizes around the 2048-byte buffer; Flush before/between/after writes; framing by exact "
+         "Content-Length, Transfer-Encoding chunked (also spelled Chunked), or neither). Oracle: handler invocations == requests up to the "
+         "first connection-closing one, in order, with their own method, target, version, header multiset and body bytes; the wire parses "
+         "with net/http.ReadResponse into exactly one response per served request with the handler's status, headers and body and nothing "
+         "else; the connection stays open iff the request did not ask to close and the response is self-delimiting, and is closed only "
+         "after the response bytes; no exception on valid input. Non-trivial = >=2 requests, a body-carrying request, a Flush or a chunked response.",
+    required=["unread-body-then-request", "handler-flush", "resp:chunked", "resp:none", "resp:cl", "http/1.0", "req-chunked", "fragmented",
+              "connection-closed", "connection-kept-open", "channel:sync", "channel:queued"],
+    assumptions=["net/http's ReadRequest/ReadResponse are the standard parser", "handlers keep the usual contracts: an explicit Content-Length equals the bytes written; bodiless statuses and HEAD write no body; no chunked responses to HTTP/1.0"],
 )
